@@ -402,6 +402,13 @@ def parent_recorded_when_provider_knows_it(ctx: Ctx, rep: Report, rid: str):
     from sa.util import extra_facts
     info = local_assigned_from(ctx, f, "self.providers[$S].info_path($P)") or "info"
     ents = local_assigned_from(ctx, f, "self.state.lookup_path($S, $P)") or "ents"
+    chn_ = f.params()[1]
+    asked = [n for n in ctx.own_nodes(f) if isinstance(n, ast.Call) and pat.match("self.providers[$S].info_path($P)", n) is not None]
+    for a_ in asked:
+        sd = ast.unparse(pat.match("self.providers[$S].info_path($P)", a_)["S"])
+        rep.check(rid, "handle_cloud_file_not_found_error|asks-changed-side", ctx.line(f, a_), sd == chn_, "the parent is looked up at the provider of the changed side",
+                  "the missing parent is looked up at the provider of side `%s`, not of the side the child's event came from (`%s`): the look-up never finds it, the child is punted "
+                  "until it is given up" % (sd, chn_))
     for u in ups:
         facts = ctx.facts_at(f, u)
         extra = extra_facts(facts, [(info, True), (ents, False), ("$S.priority > $N", False)])
@@ -1053,3 +1060,500 @@ def content_first_deferral(ctx: Ctx, rep: Report, rid: str):
                       "this side is acted on first - for a move-out that deletes the peer copy holding the only version of the newer edit" % extra)
     if found == 0:
         rep.violation(rid, "sync|content-first", f, "sync() no longer defers to the other side's pending content change when this side's content is unchanged")
+
+
+# (function, provider method) -> the path condition under which the engine issues that write, as (pattern, polarity) literals; every literal must be
+# present and nothing else may be ($X = any expression).  Read from the pinned tree; each literal is what keeps the write from happening in a state
+# where it destroys or duplicates something (see the rule texts of C02.R1-R3, C04.R5, C05.V9 for the individual reasons).
+WRITE_CONDITIONS = {
+    ("_smart_unsync_ent", "delete"): [("$E[LOCAL].path", True), ("$I", True)],
+    ("smart_rename", "rename"): [("self.providers[$O].exists_path($P)", False)],
+    ("unsafe_mkdir_synced", "mkdirs"): [("$C", False)],
+    ("upload_synced", "upload"): [],
+    ("_create_synced", "create"): [],
+    ("__resolver_merge_upload", "create"): [("$K", True)],
+    ("resolve_conflict", "upload"): [("$F is $R", False), ("$K", False)],
+    ("delete_synced", "delete"): [("$S[$Y].oid", True)],
+    ("handle_rename", "rename"): [("self.providers[$Y].paths_match($T, $S[$Y].sync_path, for_display=True)", False), ("$S[$Y].sync_path == $T", False)],
+    ("handle_rename", "delete"): [("$C[LOCAL].needs_sync()", False), ("$C[REMOTE].needs_sync()", False), ("$L", True),
+                                  ("self.providers[$Y].paths_match($T, $S[$Y].sync_path, for_display=True)", False), ("$S.priority <= 0", False), ("$S[$Y].sync_path == $T", False)],
+    # the same condition asked of the entry (SyncEntry.needs_sync is 'either side needs sync', C01.R15)
+    ("handle_rename", "delete", "alt"): [("$C.needs_sync()", False), ("$L", True),
+                                         ("self.providers[$Y].paths_match($T, $S[$Y].sync_path, for_display=True)", False), ("$S.priority <= 0", False), ("$S[$Y].sync_path == $T", False)],
+    ("conflict_rename", "rename"): [("$N is None", True), ("$I", True)],
+}
+
+
+def provider_write_conditions(ctx: Ctx, rep: Report, rid: str):
+    """Every provider-mutating call of the engine is issued under exactly the path condition recorded in WRITE_CONDITIONS (facts at the call,
+    read through extracted helpers; compound literals in negation normal form): a strengthened, weakened or inverted guard in front of a write
+    is a change of WHEN the engine writes to a user's storage."""
+    from sa.effects import Effects
+    from sa.ctx import ENGINE_MODULES
+    eff = Effects(ctx)
+    seen = set()
+    for f in ctx.prog.functions.values():
+        if f.module.name not in ENGINE_MODULES:
+            continue
+        for c_ in eff.provider_mutations(f):
+            owner = f if (f.name, c_.func.attr) in WRITE_CONDITIONS else ctx.owner(f)
+            key = (owner.name, c_.func.attr)
+            if key not in WRITE_CONDITIONS:
+                rep.violation(rid, "%s|%s" % key, ctx.line(f, c_), "`%s` in %s is a provider write that is not in the inventory of the engine's writes" % (ast.unparse(c_)[:60], f.name), func=f.qname)
+                continue
+            seen.add(key)
+            facts = _site_facts(ctx, f, c_)
+            variants = [WRITE_CONDITIONS[key]] + ([WRITE_CONDITIONS[key + ("alt",)]] if key + ("alt",) in WRITE_CONDITIONS else [])
+            verdicts = [_match_condition(facts, w) for w in variants]
+            best = min(verdicts, key=lambda v: len(v[0]) + len(v[1]))
+            unmatched_facts, missing, want = best[0], best[1], variants[verdicts.index(best)]
+            rep.check(rid, "%s|%s@%s" % (key[0], key[1], stmt_key_short(c_)), ctx.line(f, c_), not unmatched_facts and not missing, "issued under %s" % (sorted(facts) or "no condition"),
+                      "the provider write `%s` in %s is issued under %s - expected exactly %s (extra: %s, missing: %s)" % (
+                          ast.unparse(c_)[:60], f.name, sorted(facts), want, unmatched_facts, missing), func=f.qname)
+            continue
+            unmatched_facts = []
+            used = set()
+            for (txt, pol) in sorted(facts):
+                try:
+                    e_ = ast.parse(txt, mode="eval").body
+                except SyntaxError:
+                    unmatched_facts.append((txt, pol))
+                    continue
+                hit = None
+                for i, (p_, ppol) in enumerate(want):
+                    if ppol == pol and pat.match(p_, e_) is not None and i not in used:
+                        hit = i
+                        break
+                if hit is None:
+                    # a second occurrence of an already used pattern is fine only if identical polarity+pattern exists (metavariables differ)
+                    if any(ppol == pol and pat.match(p_, e_) is not None for (p_, ppol) in want):
+                        continue
+                    unmatched_facts.append((txt, pol))
+                else:
+                    used.add(hit)
+            missing = [want[i] for i in range(len(want)) if i not in used]
+            rep.check(rid, "%s|%s@%s" % (key[0], key[1], stmt_key_short(c_)), ctx.line(f, c_), not unmatched_facts and not missing, "issued under %s" % (sorted(facts) or "no condition"),
+                      "the provider write `%s` in %s is issued under %s - expected exactly %s (extra: %s, missing: %s)" % (
+                          ast.unparse(c_)[:60], f.name, sorted(facts), want, unmatched_facts, missing), func=f.qname)
+    for key in [k for k in WRITE_CONDITIONS if len(k) == 2]:
+        if key not in seen:
+            rep.note(rid, "%s|%s" % key, "-", "inventoried write not found on this tree (the mechanism changed; the rules that own it decide)")
+    if len(seen) < 9:
+        raise AnalysisError("only %d of the engine's provider writes were found" % len(seen))
+
+
+def _site_facts(ctx, f, node):
+    """facts at a site of a function of the pinned tree; for a helper that is not in the inventory (and could not be spliced back), the facts of its call site too"""
+    from sa.reinline import inventory
+    known = set(inventory().get(f.module.name, []))
+    if f.cls is not None and "%s.%s" % (f.cls.name, f.name) in known:
+        return ctx.facts_at(f, node)
+    return ctx.facts_inlined(f, node)
+
+
+def _match_condition(facts, want):
+    """(facts that match no wanted literal, wanted literals no fact matches) under a maximum one-to-one matching of facts to wanted patterns
+    (a bare metavariable matches anything, so first-come matching would let it steal the fact a specific pattern needs)."""
+    facts = sorted(facts)
+    parsed = []
+    for (txt, pol) in facts:
+        try:
+            parsed.append(ast.parse(txt, mode="eval").body)
+        except SyntaxError:
+            parsed.append(None)
+    adj = []
+    for i, (txt, pol) in enumerate(facts):
+        adj.append([j for j, (p_, ppol) in enumerate(want) if parsed[i] is not None and ppol == pol and pat.match(p_, parsed[i]) is not None])
+    match_w = {}        # wanted index -> fact index
+
+    def try_fact(i, seen):
+        for j in sorted(adj[i], key=lambda j: -len(want[j][0])):
+            if j in seen:
+                continue
+            seen.add(j)
+            if j not in match_w or try_fact(match_w[j], seen):
+                match_w[j] = i
+                return True
+        return False
+    for i in sorted(range(len(facts)), key=lambda i: len(adj[i])):
+        try_fact(i, set())
+    matched_f = set(match_w.values())
+    unmatched = [facts[i] for i in range(len(facts)) if i not in matched_f]
+    missing = [want[j] for j in range(len(want)) if j not in match_w]
+    return unmatched, missing
+
+
+def stmt_key_short(node) -> str:
+    return ast.unparse(node)[:40]
+
+
+_KEEP_NAMES = {"self", "LOCAL", "REMOTE", "FILE", "DIRECTORY", "NOTKNOWN", "TRASHED", "MISSING", "EXISTS", "UNKNOWN", "LIKELY_TRASHED", "IgnoreReason", "OTHER_SIDE",
+               "FINISHED", "PUNT", "REQUEUE", "True", "False", "None", "other_side", "len", "isinstance"}
+
+
+def generalise(txt: str) -> str:
+    """fact / call text with every plain name that is not a constant of the package replaced by a metavariable ($a, $b, ... in order of appearance)"""
+    e = ast.parse(txt, mode="eval")
+    names = {}
+
+    class G(ast.NodeTransformer):
+        def visit_Name(self, n):
+            if n.id in _KEEP_NAMES or n.id.isupper():
+                return n
+            names.setdefault(n.id, "__mv_%s" % "abcdefghijklmnop"[len(names) % 16])
+            return ast.copy_location(ast.Name(id=names[n.id], ctx=n.ctx), n)
+    out = ast.unparse(G().visit(e))
+    return out.replace("__mv_", "$")
+
+
+def disposal_sites(ctx: Ctx):
+    """(key, function, call, facts) for every ignore / unignore / clear call on an entry or an entry half in the engine's decision code."""
+    out = []
+    counts = {}
+    for f in sorted(ctx.prog.functions.values(), key=lambda x: (x.module.name, x.node.lineno)):
+        if f.module.name not in ("cloudsync.sync.manager", "cloudsync.smartsync", "cloudsync.event") or isinstance(f.node, ast.Lambda):
+            continue
+        calls = sorted([n for n in ctx.own_nodes(f) if isinstance(n, ast.Call) and isinstance(n.func, ast.Attribute) and n.func.attr in ("ignore", "unignore", "clear")
+                        and not ast.unparse(n.func.value).startswith("self._") and not ast.unparse(n.func.value).startswith("self.")], key=lambda n: (n.lineno, n.col_offset))
+        from sa.reinline import inventory
+        known = set(inventory().get(f.module.name, []))
+        for c_ in calls:
+            # a function of the pinned tree is its own owner; a helper that could not be spliced back is read as part of its caller
+            owner = f if (f.cls is not None and "%s.%s" % (f.cls.name, f.name) in known) else ctx.owner(f)
+            shape = generalise(ast.unparse(ast.Call(func=c_.func, args=c_.args[:1], keywords=[])))
+            k0 = "%s|%s" % (owner.name, shape)
+            counts[k0] = counts.get(k0, 0) + 1
+            out.append(("%s#%d" % (k0, counts[k0]), f, c_, _site_facts(ctx, f, c_)))
+    return out
+
+
+def disposal_conditions(ctx: Ctx, rep: Report, rid: str):
+    """Every place where the engine ignores / un-ignores an entry or clears one of its halves does so under exactly one of the path conditions recorded
+    for that function and call shape in rules/disposal.json.  These calls decide that a change will NOT be propagated (or that an entry starts over);
+    a guard that is strengthened, weakened or inverted in front of one of them changes which user changes are dropped."""
+    import json
+    import os
+    p = os.path.join(os.path.dirname(os.path.abspath(__file__)), "disposal.json")
+    raw = json.load(open(p))
+    table = {}
+    for key, cond in raw.items():
+        table.setdefault(key.split("#")[0], []).append([(t, p_) for (t, p_) in cond])
+    groups = {}
+    n = 0
+    for key, f, c_, facts in disposal_sites(ctx):
+        n += 1
+        groups.setdefault(key.split("#")[0], []).append((f, c_, facts))
+    for grp, sites in sorted(groups.items()):
+        conds = list(table.get(grp, []))
+        if not conds:
+            for (f, c_, facts) in sites:
+                rep.violation(rid, grp, ctx.line(f, c_), "`%s` in %s: an entry is ignored / cleared at a site that is not in the inventory (facts %s)" % (ast.unparse(c_)[:60], f.name, sorted(facts)), func=f.qname)
+            continue
+        free = list(range(len(conds)))
+        pending = []
+        for (f, c_, facts) in sites:
+            hit = [j for j in free if _match_condition(facts, conds[j]) == ([], [])]
+            if hit:
+                free.remove(hit[0])
+                rep.ok(rid, "%s@%d" % (grp, conds.index(conds[hit[0]]) + 1), ctx.line(f, c_), "under %s" % (sorted(facts) or "no condition"), func=f.qname)
+            else:
+                pending.append((f, c_, facts))
+        for (f, c_, facts) in pending:
+            best = min(conds, key=lambda w: sum(len(x) for x in _match_condition(facts, w)))
+            extra, missing = _match_condition(facts, best)
+            rep.violation(rid, grp, ctx.line(f, c_), "`%s` in %s is reached under %s - the closest inventoried condition is %s (extra: %s, missing: %s): the set of states in "
+                          "which this entry is dropped / reset changed" % (ast.unparse(c_)[:60], f.name, sorted(facts), best, extra, missing), func=f.qname)
+        if free and not pending and len(sites) < len(conds):
+            rep.violation(rid, grp, sites[0][0], "%d inventoried disposal site(s) of shape `%s` are gone: entries that used to be ignored / cleared there are not any more" % (len(free), grp))
+    for grp in table:
+        if grp not in groups:
+            rep.violation(rid, grp, "-", "the inventoried disposal site `%s` is gone: entries that used to be ignored / cleared there are not any more" % grp)
+    if n < 15:
+        raise AnalysisError("only %d disposal sites found" % n)
+
+
+def retry_thresholds_ordered(ctx: Ctx, rep: Report, rid: str):
+    """handle_cloud_file_not_found_error: the 'punt at least once' threshold is strictly below the give-up threshold, so the recovery code
+    between them (re-marking / re-creating a vanished parent) can run before the entry is given up."""
+    f = ctx.prog.func("SyncManager.handle_cloud_file_not_found_error")
+    sy = f.params()[2]
+    give, punt = [], []
+    for n in ctx.own_nodes(f):
+        if isinstance(n, ast.If) and isinstance(n.test, ast.Compare) and len(n.test.ops) == 1 and pat.match("%s.priority" % sy, n.test.left) is not None \
+                and isinstance(n.test.comparators[0], ast.Constant):
+            k = n.test.comparators[0].value
+            body_raises = any(isinstance(x, ast.Raise) for b in n.body for x in ast.walk(b))
+            body_punts = any(isinstance(x, ast.Return) and isinstance(x.value, ast.Name) and x.value.id == "PUNT" for b in n.body for x in ast.walk(b))
+            if body_raises and isinstance(n.test.ops[0], (ast.Gt, ast.GtE)):
+                give.append(k + (0 if isinstance(n.test.ops[0], ast.GtE) else 1))        # first priority that gives up
+            elif body_punts and isinstance(n.test.ops[0], (ast.LtE, ast.Lt)):
+                punt.append(k + (1 if isinstance(n.test.ops[0], ast.LtE) else 0))        # first priority that no longer just punts
+    if not give or not punt:
+        raise AnalysisError("handle_cloud_file_not_found_error: give-up / punt thresholds not found")
+    rep.check(rid, "handle_cloud_file_not_found_error|thresholds", f, max(punt) < min(give), "plain punts stop at priority %s, give-up starts at %s" % (max(punt), min(give)),
+              "the entry is only punted up to priority %s and given up from priority %s on: the recovery code between the two thresholds can never run - a file whose parent "
+              "folder vanished is dropped after the retries instead of having the folder re-created" % (max(punt) - 1, min(give)))
+
+
+def entry_paths_match_for_display(ctx: Ctx, rep: Report, rid: str):
+    """SyncEntry.paths_match(side) compares the last-synced path with the current path through the provider's paths_match(..., for_display=True): a
+    rename that changes only the case of the leaf is a path change."""
+    f = ctx.prog.func("SyncEntry.paths_match")
+    calls = [n for n in ctx.own_nodes(f) if isinstance(n, ast.Call) and isinstance(n.func, ast.Attribute) and n.func.attr == "paths_match"]
+    if not calls:
+        raise AnalysisError("SyncEntry.paths_match no longer calls the provider's paths_match")
+    for c_ in calls:
+        kw = {k.arg: k.value for k in c_.keywords}
+        v = kw.get("for_display") or (c_.args[2] if len(c_.args) > 2 else None)
+        ok = isinstance(v, ast.Constant) and v.value is True
+        args = {ast.unparse(a) for a in c_.args[:2]}
+        s_ = f.params()[0]
+        sd = f.params()[1]
+        ok2 = args == {"%s[%s].sync_path" % (s_, sd), "%s[%s].path" % (s_, sd)}
+        rep.check(rid, "SyncEntry.paths_match|for_display", ctx.line(f, c_), ok and ok2, "sync_path vs path, for_display=True",
+                  "SyncEntry.paths_match compares %s with for_display=%s: a case-only rename of a file is not a path change any more (it is never mirrored), or the wrong pair "
+                  "of paths is compared" % (sorted(args), ast.unparse(v) if v is not None else "False (default)"))
+
+
+def rename_reuse_guard(ctx: Ctx, rep: Report, rid: str):
+    """SyncState.update, rename event on a path-id provider: the rename-from entry takes over only when there is no entry for the new id yet, or that entry
+    is not CONFLICTED and (the old one was synced or the new one was not)."""
+    from sa import predform
+    f = ctx.prog.func("SyncState.update")
+    side = f.params()[1]
+    cands = [n for n in ctx.own_nodes(f) if isinstance(n, ast.If) and any(isinstance(x, ast.Attribute) and x.attr == "sync_hash" for x in ast.walk(n.test))]
+    if len(cands) != 1:
+        raise AnalysisError("SyncState.update: the prior-entry reuse test was not found")
+    t = cands[0].test
+    oidp, priorp = f.params()[3], "prior_oid"
+    e = local_assigned_from(ctx, f, "self.lookup_oid(%s, %s)" % (side, oidp))
+    p = None
+    for n in ctx.own_nodes(f):
+        if isinstance(n, ast.Assign) and isinstance(n.targets[0], ast.Name) and isinstance(n.value, ast.Call) and pat.match("self.lookup_oid(%s, $P)" % side, n.value) is not None \
+                and ast.unparse(n.value.args[1]) != oidp:
+            p = n.targets[0].id
+    if e is None or p is None:
+        raise AnalysisError("SyncState.update: entry / prior-entry variables of the reuse test not identified")
+    try:
+        got = predform.dnf(t)
+        want = predform.dnf(predform.parse("not {e} or (not {e}.is_conflicted and ({p}[{s}].sync_hash or not {e}[{s}].sync_hash))".format(e=e, p=p, s=side)))
+    except predform.Undecided as u:
+        rep.error("rule=%s reason=undecided: %s" % (rid, u))
+        return
+    rep.check(rid, "update|reuse-prior-entry", ctx.line(f, cands[0]), got == want, "reuse = no entry yet, or not conflicted and (old synced or new unsynced)",
+              "the rename-from entry now takes over when [%s] (was [%s]): e.g. the provider's own rename event of a .conflicted copy takes over the winner's entry - the winner is "
+              "renamed away and overwritten" % (predform.show(got)[:300], predform.show(want)[:300]))
+
+
+def walk_iterates_inside_try(ctx: Ctx, rep: Report, rid: str):
+    """Provider._walk: the ITERATION over listdir(oid) (a lazy generator) is inside the try that forgives a vanished folder, not only the call."""
+    f = ctx.prog.cls("Provider").methods["_walk"]
+    tries = [t for t in ctx.own_nodes(f) if isinstance(t, ast.Try) and any(h.type is not None and "CloudFileNotFoundError" in ast.unparse(h.type) for h in t.handlers)]
+    loops = [n for n in ctx.own_nodes(f) if isinstance(n, ast.For)]
+    defs = {n.targets[0].id: n.value for n in ctx.own_nodes(f) if isinstance(n, ast.Assign) and isinstance(n.targets[0], ast.Name)}
+    lst = [lp for lp in loops if pat.match("self.listdir($O)", lp.iter) is not None or (isinstance(lp.iter, ast.Name) and lp.iter.id in defs and pat.match("self.listdir($O)", defs[lp.iter.id]) is not None)]
+    if not tries or not lst:
+        raise AnalysisError("Provider._walk: try / listdir loop not found")
+    inside = all(any(any(x is lp for x in ast.walk(b)) for t in tries for b in t.body) for lp in lst)
+    rep.check(rid, "Provider._walk|iteration-guarded", f, inside, "the loop over listdir() is inside the try",
+              "only the call of listdir() is guarded: listdir is a generator, so a folder that vanishes during the walk raises from the unguarded loop - the caller takes the "
+              "aborted walk for a complete one (walk marker written) and the siblings not yet visited are never walked")
+
+
+def swallowing_handlers(ctx: Ctx, rep: Report, rid: str):
+    """No new place in the sync manager swallows a provider fault: the handlers that catch a CloudException family (or Exception) and neither re-raise nor
+    notify are the inventoried ones."""
+    KNOWN = {  # function -> number of swallowing handlers today (read: each is a deliberate 'this is the expected answer' handler)
+    }
+    M = ctx.prog.cls("SyncManager")
+    found = {}
+    for f in M.methods.values():
+        if isinstance(f.node, ast.Lambda):
+            continue
+        for t in [x for x in ctx.own_nodes(f) if isinstance(x, ast.Try)]:
+            for h in t.handlers:
+                names = [ast.unparse(e).split(".")[-1] for e in (h.type.elts if isinstance(h.type, ast.Tuple) else [h.type])] if h.type is not None else ["BaseException"]
+                broad = [n_ for n_ in names if n_ in ("CloudException", "CloudTemporaryError", "CloudDisconnectedError", "CloudTokenError", "Exception", "BaseException")]
+                if not broad:
+                    continue
+                body = ast.Module(body=list(h.body), type_ignores=[])
+                reraises = any(isinstance(x, ast.Raise) for x in ast.walk(body))
+                handles = any(isinstance(x, ast.Call) and isinstance(x.func, ast.Attribute) and x.func.attr in ("notify_from_exception", "backoff", "punt", "handle_corrupt") for x in ast.walk(body))
+                if not reraises and not handles:
+                    found.setdefault(f.name, []).append((h, broad))
+    return found
+
+
+def no_new_swallowing_handlers(ctx: Ctx, rep: Report, rid: str):
+    """The only handler of the sync manager that catches a provider-fault family (CloudException, CloudTemporaryError, ..., Exception) and neither re-raises
+    nor reports / punts is the resolver fallback of __safe_call_resolver: a fault anywhere else reaches the step's classify-notify-punt-back-off frame."""
+    allowed = {("__safe_call_resolver", "Exception")}
+    found = swallowing_handlers(ctx, rep, rid)
+    ok_n = 0
+    for fname, hs in sorted(found.items()):
+        f = ctx.prog.cls("SyncManager").methods[fname]
+        for h, broad in hs:
+            if all((fname, b) in allowed for b in broad):
+                ok_n += 1
+                rep.ok(rid, "%s|except %s" % (fname, "/".join(broad)), ctx.line(f, h), "the inventoried fallback handler")
+            else:
+                rep.violation(rid, "%s|except %s" % (fname, "/".join(broad)), ctx.line(f, h), "%s catches %s and neither re-raises nor reports it: a transient provider fault at this "
+                              "call is silently swallowed - not notified, not punted, not retried (the work behind it is dropped for good)" % (fname, "/".join(broad)), func=f.qname)
+    if ok_n == 0:
+        raise AnalysisError("the resolver fallback handler of __safe_call_resolver was not found (positive control)")
+
+
+def change_oid_cleans_the_popped_entrys_slot(ctx: Ctx, rep: Report, rid: str):
+    """SyncState._change_oid: the (path, id) slot that is cleaned belongs to the entry that was popped from the id index (`prior_ent`), whose path is read from
+    that entry - not from the entry being re-keyed."""
+    f = ctx.prog.func("SyncState._change_oid")
+    entp = f.params()[2]
+    pops = [n for n in ctx.own_nodes(f) if isinstance(n, ast.Assign) and isinstance(n.targets[0], ast.Name) and pat.match("self._oids[$S].pop($O, None)", n.value) is not None]
+    if not pops:
+        raise AnalysisError("_change_oid: pop from the id index not found")
+    pe = pops[0].targets[0].id
+    slot = [n for n in ctx.own_nodes(f) if isinstance(n, ast.Call) and pat.match("self._paths[$S][$P].pop($O, None)", n) is not None]
+    if not slot:
+        raise AnalysisError("_change_oid: slot removal not found")
+    defs = {}
+    for n in ctx.own_nodes(f):
+        if isinstance(n, ast.Assign) and isinstance(n.targets[0], ast.Name):
+            defs.setdefault(n.targets[0].id, []).append(n.value)
+    for s_ in slot:
+        pexpr = pat.match("self._paths[$S][$P].pop($O, None)", s_)["P"]
+        srcs = [pexpr] if not isinstance(pexpr, ast.Name) else defs.get(pexpr.id, [])
+        ok = bool(srcs) and all(pat.match("%s[$S].path" % pe, v) is not None for v in srcs)
+        rep.check(rid, "_change_oid|slot-of-popped-entry", ctx.line(f, s_), ok, "the slot cleaned is (%s[side].path, id)" % pe,
+                  "the slot that _change_oid cleans is keyed by `%s`, not by the path of the entry popped from the id index: when another entry loses the id, ITS slot stays "
+                  "behind (lookup_path finds an entry that no longer owns the id) and the re-keyed entry's own slot is dropped" % ", ".join(ast.unparse(v) for v in srcs))
+
+
+def idless_delete_lookup_is_live(ctx: Ctx, rep: Report, rid: str):
+    """_process_event, folder delete without an id: the id is borrowed from the LIVE entry at that path (lookup_path without stale=True) - a discarded
+    tombstone of an older folder of the same name must not absorb the delete."""
+    f = ctx.prog.func("EventManager._process_event")
+    ev = f.params()[1]
+    calls = [n for n in ctx.own_nodes(f) if isinstance(n, ast.Call) and pat.match("self.state.lookup_path(self.side, %s.path, $$$)" % ev, n) is not None]
+    if not calls:
+        raise AnalysisError("_process_event: the look-up by path for an id-less folder delete was not found")
+    for c_ in calls:
+        stale = [k for k in c_.keywords if k.arg == "stale" and not (isinstance(k.value, ast.Constant) and not k.value.value)] or list(c_.args[2:3])
+        rep.check(rid, "_process_event|idless-delete-lookup", ctx.line(f, c_), not stale, "lookup_path(side, path) - live entries only",
+                  "`%s` includes discarded tombstones: the delete of a folder is applied to the oldest dead entry of that name and the live folder's delete is never propagated" % ast.unparse(c_))
+
+
+def wait_joins_unless_own_thread(ctx: Ctx, rep: Report, rid: str):
+    """Runnable.wait joins the service thread under exactly `there is a thread and it is not the current one` - in particular also when a stop is already
+    pending (stop(forever=True) sets the flags BEFORE the thread has left its loop)."""
+    from sa.util import extra_facts
+    w = ctx.prog.cls("Runnable").methods["wait"]
+    joins = [n for n in ctx.own_nodes(w) if isinstance(n, ast.Call) and pat.match("$T.join($$$)", n) is not None]
+    if not joins:
+        rep.violation(rid, "wait|join", w, "wait() no longer joins the service thread")
+        return
+    for j in joins:
+        facts = ctx.facts_at(w, j)
+        th = ast.unparse(j.func.value)
+        extra = extra_facts(facts, [(th, True), ("threading.current_thread() == %s" % th, False), ("%s == threading.current_thread()" % th, False)])
+        rep.check(rid, "wait|join-condition", ctx.line(w, j), fact_in(facts, th, True) and not extra, "join whenever another thread runs the service",
+                  "wait() joins only under the extra condition(s) %s: after stop(forever=True) - which sets the flags first - stop()/stop_all()/CloudSync.stop() return while "
+                  "the service thread is still inside do(), holding the state lock and committing" % extra)
+
+
+def fs_events_trim_after_delivery(ctx: Ctx, rep: Report, rid: str):
+    """FileSystemProvider.events(): the backlog is trimmed to the event window only AFTER the pending events were handed out (the delivery loop dominates
+    every popleft): more than a window's worth of undelivered events is delivered, not dropped."""
+    f = ctx.prog.cls("FileSystemProvider").methods["events"]
+    g = ctx.cfg(f)
+    pops = [n for n in g.nodes if node_has_call(n, "self._events.popleft()")]
+    ylds = [n for n in g.nodes if cfg_root(n) is not None and any(isinstance(x, (ast.Yield, ast.YieldFrom)) for x in ast.walk(cfg_root(n)))]
+    loops = [n for n in g.nodes if n.kind == "test" and any(any(x is cfg_root(y) for x in ast.walk(lp)) for lp in ctx.own_nodes(f) if isinstance(lp, ast.While) and lp.test is n.ast for y in ylds)]
+    if not pops or not loops:
+        raise AnalysisError("FileSystemProvider.events: trimming / delivery loop not found")
+    p_ = g.reach([g.entry.id], lambda n: n in pops, avoid=lambda n: n in loops, follow=NORMAL)
+    rep.check(rid, "FileSystemProvider.events|trim-after-delivery", f, p_ is None, "every popleft is behind the delivery loop",
+              "the event backlog is trimmed before the pending events were delivered: when more than a window of events piled up between two polls the oldest undelivered "
+              "ones are dropped and the cursor skips past them - mutations the consumer never hears about", witness=describe_path(p_) if p_ else None)
+
+
+def mock_rename_noop_is_exact(ctx: Ctx, rep: Report, rid: str):
+    """MockProvider.rename returns early ('nothing to do') only when the stored path EQUALS the target path; a target that differs in case is a rename."""
+    f = ctx.prog.cls("MockProvider").methods["rename"]
+    g = ctx.cfg(f)
+    rets = [n for n in g.nodes if n.kind == "stmt" and isinstance(n.ast, ast.Return)]
+    ren = [n for n in g.nodes if node_has_call(n, "self._rename_single_object($$$)")]
+    early = [r for r in rets if g.reach([g.entry.id], lambda n, r=r: n is r, avoid=lambda n: n in ren, follow=NORMAL) is not None]
+    pathp = f.params()[2]
+    bad = []
+    seen_exact = False
+    for r in early:
+        facts = ctx.facts(f).facts(r)
+        for (t, p_) in facts:
+            if p_ and "paths_match(" in t and pathp in t:
+                bad.append(t)
+            if p_ and pat.match("$O.path == %s" % pathp, ast.parse(t, mode="eval").body) is not None:
+                seen_exact = True
+    rep.check(rid, "MockProvider.rename|noop-exact", f, not bad and seen_exact, "the no-op shortcut is `object.path == path`",
+              "rename returns without renaming under %s: on a case-insensitive mock a rename that changes only the case of the name reports success but stores and announces "
+              "nothing" % (bad or "a condition other than path equality"))
+
+
+def selection_loop_has_no_early_stop(ctx: Ctx, rep: Report, rid: str):
+    """SyncState.change: the selection loop over the sorted pending set leaves only by returning an eligible entry - no break / return None inside it (the list is
+    sorted by (priority, newest stamp); eligibility is 'either side aged or negative priority', which is not monotone in that order)."""
+    f = ctx.prog.func("SyncState.change")
+    srt = [n for n in ctx.own_nodes(f) if isinstance(n, ast.Assign) and isinstance(n.targets[0], ast.Name) and isinstance(n.value, ast.Call) and isinstance(n.value.func, ast.Name) and n.value.func.id == "sorted"]
+    if not srt:
+        raise AnalysisError("SyncState.change: sorted() not found")
+    lst = srt[0].targets[0].id
+    loops = [n for n in ctx.own_nodes(f) if isinstance(n, ast.For) and isinstance(n.iter, ast.Name) and n.iter.id == lst]
+    if not loops:
+        raise AnalysisError("SyncState.change: selection loop not found")
+    for lp in loops:
+        var = lp.target.id if isinstance(lp.target, ast.Name) else None
+        stops = [x for b in lp.body for x in ast.walk(b) if isinstance(x, ast.Break) or (isinstance(x, ast.Return) and not (isinstance(x.value, ast.Name) and x.value.id == var))]
+        rep.check(rid, "change|selection-loop", ctx.line(f, lp), not stops, "the loop ends only by returning an eligible entry or by exhausting the list",
+                  "the selection loop stops early (`%s`): an aged / deferred entry behind a fresh one is never offered - a trickle of new changes starves it for ever" % (ast.unparse(stops[0]) if stops else ""))
+
+
+def per_side_tuples_are_indexed_in_order(ctx: Ctx, rep: Report, rid: str):
+    """A pair built from the two providers / roots takes element i from side i: `(providers[0].x, providers[1].x)` - never the same index twice."""
+    n = 0
+    for f in ctx.prog.functions.values():
+        if f.module.name not in ("cloudsync.cs", "cloudsync.smartsync", "cloudsync.sync.manager"):
+            continue
+        for t in ctx.own_nodes(f):
+            if isinstance(t, ast.Tuple) and len(t.elts) == 2 and all(
+                    isinstance(e, ast.Attribute) and isinstance(e.value, ast.Subscript) and isinstance(e.value.slice, ast.Constant) and e.value.slice.value in (0, 1) for e in t.elts):
+                e0, e1 = t.elts
+                if e0.attr == e1.attr and ast.unparse(e0.value.value) == ast.unparse(e1.value.value):
+                    n += 1
+                    rep.check(rid, stmt_key_short(t) + "@" + f.name, ctx.line(f, t), (e0.value.slice.value, e1.value.slice.value) == (0, 1), "element i comes from side i",
+                              "`%s` in %s takes both elements from the same side: the other side's value (poll interval -> ageing, root, ...) is ignored" % (ast.unparse(t), f.name), func=f.qname)
+    if n == 0:
+        raise AnalysisError("no per-side pair `(x[0].a, x[1].a)` found (positive control)")
+
+
+def refresh_covers_both_sides(ctx: Ctx, rep: Report, rid: str):
+    """SyncEntry.get_latest refreshes EVERY requested side whenever the newest change stamp of the entry (max over the sides) is newer than that side's last
+    refresh - a change on one side re-reads the quiet side too (that is how a still undelivered edit / move of the peer is noticed before acting)."""
+    from sa.util import has_fact
+    ge = ctx.prog.func("SyncEntry.get_latest")
+    calls = [c_ for c_ in ctx.calls(ge, "unconditionally_get_latest")]
+    mk = [n for n in ctx.own_nodes(ge) if isinstance(n, ast.Assign) and isinstance(n.value, ast.Call) and isinstance(n.value.func, ast.Name) and n.value.func.id == "max" and isinstance(n.targets[0], ast.Name)]
+    mx = mk[0].targets[0].id if mk else "?"
+    ok = bool(calls) and bool(mk)
+    for c_ in calls:
+        facts = ctx.facts_at(ge, c_)
+        ok = ok and (has_fact(facts, "force or %s > $S._last_gotten" % mx, True) or has_fact(facts, "%s > $S._last_gotten or force" % mx, True))
+    # the maximum is taken over the sides' change stamps
+    # ... over the change stamps of the sides: directly (a comprehension over the sides) or through a list built from them
+    srcs = [mk[0].value] if mk else []
+    if mk:
+        for a_ in mk[0].value.args:
+            if isinstance(a_, ast.Name):
+                srcs += [n for n in ctx.own_nodes(ge) if isinstance(n, ast.Call) and pat.match("%s.append($V)" % a_.id, n) is not None]
+    over_sides = bool(mk) and any(isinstance(x, ast.Attribute) and x.attr == "changed" and not (isinstance(x.value, ast.Name)) for s_ in srcs for x in ast.walk(s_))
+    rep.check(rid, "get_latest|condition", ge, ok and over_sides, "refresh when forced or the entry's newest change stamp is newer than the side's last refresh",
+              "get_latest no longer refreshes a side exactly when `force or max(change stamps of all sides) > its _last_gotten`: a change on one side no longer re-reads the quiet "
+              "side, so a peer edit / move whose event is still in flight is not noticed before the engine deletes, overwrites or renames the peer object")
